@@ -276,7 +276,7 @@ def draw_plans(rng: Rng, records: List[Dict[str, Any]], k: int) -> List[Dict[str
         rec = r.choice(inherited) if inherited and r.chance(0.5) else r.choice(by[key])
         ev = r.weighted([(1, 1), (r.randint(1, rec['events']), 4), (rec['events'], 1)])
         plans.append({'op': key[0], 'flavour': key[1], 'stmt': key[2], 'call': rec['call'], 'event': ev,
-                      'exc': r.choice(sorted(inject.EXC_CLASSES))})
+                      'exc': r.choice(sorted(inject.EXC_CLASSES)), 'bare': r.chance(0.3)})
     return plans
 
 
@@ -317,6 +317,8 @@ def run_case(case: Dict[str, Any], plans: Optional[List[Dict[str, Any]]], nplans
         k = f'{p["op"]}:{p["flavour"]}'
         stats['fired'][k] = stats['fired'].get(k, 0) + 1
         stats['exc_classes'][p['exc']] = stats['exc_classes'].get(p['exc'], 0) + 1
+        if p.get('bare'):
+            stats['bare'] = stats.get('bare', 0) + 1
         if res['fired'].get('source') and res['fired'].get('target') and res['fired']['source'] != res['fired']['target']:
             stats['inherited'] = stats.get('inherited', 0) + 1
         if not res['fired'].get('surfaced'):
@@ -390,6 +392,7 @@ def coverage(stats: List[Dict[str, Any]], samples: List[Any]) -> Dict[str, Any]:
         'exception_classes': excs,
         'probes': {'injection_landed_in_a_pydoctor_frame': sum(s['in_pydoctor'] for s in stats),
                    'injection_landed_in_a_docutils_frame': sum(s['in_docutils'] for s in stats),
+                   'exception_raised_without_a_message': sum(s.get('bare', 0) for s in stats),
                    'fault_while_rendering_a_docstring_inherited_from_another_object': sum(s.get('inherited', 0) for s in stats),
                    'injected_exception_absorbed_before_reaching_the_guard': sum(s.get('absorbed', 0) for s in stats),
                    'guarded_extents_seen_in_twins': sum(s['extents'] for s in stats),
